@@ -40,13 +40,14 @@ BoxCox*    x + nu > 0, |lam ln(x+nu)| <= 13.8 (power branch), Sx = |nu|; y: 0 < 
            ((s/nu)^|lam| - 1)/|lam|), nu > 0, Sy = max(1, |BC(0)|)
            1e-10 < |lam| <= 1e-9 loses up to ~4e-6 by cancellation: known finding */power/lam_just_above_switch
 YeoJohnson w = nu + scale x: |lam ln(1+w)| <= 13.8 (w >= EPS), |(2-lam) ln(1-w)| <= 13.8 (w < EPS),
-           Sx = (1+|nu|)/scale; y: argument of the power positive with |ln| <= 13.8, |nu| <= 1e6 (1+|w|), Sy = 1
+           Sx = (1+|nu|)/scale; y: argument of the power positive with |ln| <= 13.8, |nu| <= 1e6 (1+|w|),
+           |w|/scale <= 1e290 (no overflow), Sy = 1
 LogSinh    w = a + b x/xmax >= 1e-4, w <= 1e6, Sx = xmax max(a/b, |x/xmax|); y: b y >= ln sinh 1e-4, Sy = 1/b
 Reciprocal x + nu > 0 and (mininu <= 0 or x + nu < (1-1e-9)/mininu), Sx = |nu|;
            x + nu >= (1+1e-9)/mininu, mininu > 0: known finding Reciprocal/roundtrip_x/xnu_ge_inv_mininu;
            y < min(0, -mininu), -1/y >= 1e-6 |nu|, Sy = 0
 Softmax    entries > 0 (>= 1e-300), sum <= 1 - EPS, Sx = 0 (pure relative); y: |y_i| <= 700, sum exp(y) <= 1e6, Sy = 1
-Sinh       all x (|u| <= 1e300), Sx = |nu|; y: |y| <= 700, |nu| scale <= 1e6 cosh y, Sy = 1
+Sinh       all x (|u| <= 1e300), Sx = |nu|; y: |y| <= 700, |nu| scale <= 1e6 cosh y, cosh(y)/scale <= 1e290, Sy = 1
 Manly      |lam| <= EPS, or |lam| >= 1e-3 with |lam x/xmax| <= 10, Sx = xmax; y: 1 + lam y > 0, |ln(1+lam y)| <= 10, Sy = 1
 """
 
@@ -512,10 +513,8 @@ def region_x(cls, P, x):
 
 def region_y(cls, P, y, x):
     """y: the image-side input, x = backward(y) as returned by the real code (used only for conditioning)"""
-    if not fin(y) or not fin(x):
-        # a NaN backward inside the image is judged by the class-specific tests below
-        if not fin(y):
-            return None
+    if not fin(y):
+        return None
     if cls == "Identity":
         return (0.0, "identity", None)
     if cls == "Logit":
@@ -588,8 +587,8 @@ def region_y(cls, P, y, x):
                     return None
                 w = 1 - spow(q, 1 / m)
                 tag = "neg-power"
-        if not fin(w) or abs(nu) > 1e6 * (1 + abs(w)):
-            return None
+        if not fin(w) or abs(nu) > 1e6 * (1 + abs(w)) or abs(w) > 1e290 * sc:
+            return None          # (w - nu)/scale must not overflow
         return (1.0, tag, None)
     if cls == "LogSinh":
         b = math.exp(P["logb"])
@@ -608,8 +607,8 @@ def region_y(cls, P, y, x):
             return None
         return (0.0, "reciprocal", None)
     if cls == "Sinh":
-        if abs(y) > 700 or abs(P["nu"]) * P["scale"] > 1e6 * math.cosh(y):
-            return None
+        if abs(y) > 700 or abs(P["nu"]) * P["scale"] > 1e6 * math.cosh(y) or math.cosh(y) > 1e290 * P["scale"]:
+            return None          # sinh(y)/scale must not overflow
         return (1.0, "sinh", None)
     if cls == "Manly":
         lam, xm = P["lam"], P["xmax"]
@@ -703,7 +702,7 @@ def body(ctx):
     from hydrodiy.stat import transform as T
     rng = ctx.rng
     reqs, checks = [], []      # checks[i] = (impl status, impl payload, case dict, expected model state or None)
-    stats = {"unconstrained": 0, "elements": 0, "outside_domain_not_compared": 0}
+    stats = {"unconstrained": 0, "elements": 0, "outside_domain_not_compared": 0, "max_diff_over_bound": 0.0}
 
     def submit(o, op, arr, censor=None, note=""):
         """run one call on the real object, queue the same call for the model; returns the impl result"""
@@ -987,6 +986,8 @@ def body(ctx):
                 stats["unconstrained"] += 1
                 continue
             if abs(a - m) <= 2 * e or C.ulp_diff(a, m) <= 4:
+                if e > 0 and abs(a - m) / e > stats["max_diff_over_bound"]:
+                    stats["max_diff_over_bound"] = abs(a - m) / e
                 continue
             bad = (k, a, m, e)
             break
@@ -999,6 +1000,7 @@ def body(ctx):
     ctx.extra["oracle_regions"] = REGIONS.strip()
     ctx.extra["unconstrained_elements"] = stats["unconstrained"]
     ctx.extra["outside_domain_not_compared"] = stats["outside_domain_not_compared"]
+    ctx.extra["max_impl_model_difference_over_bound"] = stats["max_diff_over_bound"]   # accepted up to 2
     ctx.assumptions += [
         "parameter values are read back from the object after assignment (clipping to bounds is C12's subject)",
         "numpy exp/log/power/sinh/arcsinh/tanh vs libm: compared within 1e-13 relative per call, propagated",
@@ -1012,6 +1014,4 @@ def main(tier, replay=None):
     return C.run_check(PID, tier, body, needs_native=False, replay=replay,
                        trusted=["numpy elementwise transcendental functions and np.sum/np.prod (external, compared by result)",
                                 "libm (Lean Float functions, python math.exp/log)",
-                                "IEEE rounding is modelled (Float instance), not verified: theorems are over the reals"],
-                       level_partial=["YeoJohnson.sliver_statement (round-trip error inside the ~1e-20-wide sliver where "
-                                      "forward and backward select different branches; exact identity proved outside it)"])
+                                "IEEE rounding is modelled (Float instance), not verified: theorems are over the reals"])
